@@ -78,6 +78,13 @@ func TestFSDriverChild(t *testing.T) {
 			if err == nil {
 				err = lg.Replay()
 			}
+		case "log.again":
+			// Open and Replay once more on the SAME object: what restore() does when Restart() follows
+			// NewRaft (or a Start that restored) without a Stop in between
+			err = lg.Open()
+			if err == nil {
+				err = lg.Replay()
+			}
 		case "log.append":
 			err = lg.AppendEntries(parseSEnts(f[1]))
 		case "log.truncate":
@@ -237,7 +244,7 @@ func genLogScript(rng *Rng, nops int) []string {
 // truncate, truncate then compact, ...) that random scripts only hit occasionally.
 func directedLogScripts(depth int) [][]string {
 	prelude := []string{"log.open", "log.append 1.1.1.07;2.1.1.68656c6c6f;3.2.1.;4.2.0.;5.3.1.abab"}
-	kinds := []string{"A", "T1", "Tl", "C1", "C2", "Cl", "D", "R"}
+	kinds := []string{"A", "T1", "Tl", "C1", "C2", "Cl", "D", "R", "O"}
 	var out [][]string
 	var rec func(script []string, s specLog, term uint64, d int)
 	rec = func(script []string, s specLog, term uint64, d int) {
@@ -276,6 +283,8 @@ func directedLogScripts(depth int) [][]string {
 				lines = []string{fmt.Sprintf("log.discard %d %d", s.last()+1, term)}
 			case "R":
 				lines = []string{"log.close", "log.open"}
+			case "O":
+				lines = []string{"log.again"}
 			}
 			if lines == nil {
 				continue
